@@ -274,7 +274,7 @@ void eng_monitors_install(void)
 }
 
 /* ------------------------------------------------------------- generation */
-static const char ALPHA[] = "+ATB#&z9";
+static const char ALPHA[] = "+ATB#&z9%";
 static char *mkname(void)
 {
         char b[8]; unsigned n = 1 + rn(4);
@@ -299,7 +299,7 @@ void eng_gen_table(void)
                 for (size_t j = 0; j < per[g]; j++, idx++) {
                         struct cat_command *c = &arr[j];
                         c->name = (idx > 0 && chance(12)) ? xstr(W.cmd[rn(idx)]->name) : mkname();
-                        if (chance(EP.p_desc)) { char d[40]; snprintf(d, sizeof d, "d%zu%s", idx, chance(50) ? " some text" : ""); c->description = xstr(d); }
+                        if (chance(EP.p_desc)) { char d[40]; snprintf(d, sizeof d, "d%zu%s", idx, chance(50) ? " some text" : chance(30) ? " 0-100% %s %d%" : ""); c->description = xstr(d); }
                         c->implicit_write = chance(8);
                         if (chance(60)) c->write = h_write;
                         if (!c->implicit_write) { if (chance(50)) c->read = h_read; if (chance(50)) c->run = h_run; if (chance(50)) c->test = h_test; }
@@ -308,7 +308,7 @@ void eng_gen_table(void)
                         struct cat_variable *v = w_vars(c, nv);
                         for (unsigned k = 0; k < nv; k++) {
                                 v[k].type = (cat_var_type)rn(5); v[k].access = (cat_var_access)rn(3);
-                                if (chance(50)) { char nb[8]; snprintf(nb, sizeof nb, "N%u", k); v[k].name = xstr(nb); }
+                                if (chance(50)) { char nb[12]; snprintf(nb, sizeof nb, chance(10) ? "%%N%u" : "N%u", k); v[k].name = xstr(nb); }
                                 size_t sz;
                                 if (v[k].type <= CAT_VAR_NUM_HEX) { static const size_t szs[] = { 1, 2, 4, 4, 2, 1, 3, 8 }; sz = szs[rn(chance(90) ? 6 : 8)]; }
                                 else sz = chance(85) ? 1 + rn(8) : chance(50) ? 17 + rn(48) : 1 + rn(64);
@@ -400,7 +400,7 @@ void eng_random_schedules(void)
                 sched_w = chance(50) ? 100 : (chance(20) ? 5 + rn(20) : 30 + rn(70));
         }
         if (sched_r == 100) sch_eager(&RS); else sch_bern(&RS, sched_r, rnd());
-        if (sched_w == 100) sch_eager(&WS); else sch_bern(&WS, sched_w, rnd());
+        if (sched_w == 100) sch_eager(&WS); else if (chance(20)) { unsigned k = 2 + rn(4); sch_periodic(&WS, k, rn(k)); sched_w = 100 / k; } else sch_bern(&WS, sched_w, rnd());
 }
 
 long eng_progress_bound(void)
@@ -454,9 +454,11 @@ void eng_run_history(void)
         /* phase II: no further stimulus, io always ready, holds released at once: bounded progress to quiescence (C15) */
         stim_on = false;
         sch_eager(&RS); sch_eager(&WS);
+        unsigned period = 1;
+        if (chance(30)) { period = 2 + rn(4); sch_periodic(&WS, period, rn(period)); CNT("progress_measured_with_periodic_output"); }      /* "the output accepts bytes": also an output that is ready in every k-th service call only (a slow UART polled too often) */
         if (!quiet) {
                 if (HOLD_PHASE == 1) eng_hold_exit(CAT_STATUS_OK);
-                long B = eng_progress_bound(), used = 0;
+                long B = eng_progress_bound() * (long)period, used = 0;
                 for (; used < B; used++) {
                         cat_status s = svc();
                         eng_after_service(s);
